@@ -14,6 +14,8 @@ if [ "$PATCH" != "none" ]; then git -C $WT apply "$PATCH" || { echo "patch does 
 sed "s#=> /repo#=> $WT#" $V/harness/go.mod > $OUT/go.mod; cp $V/harness/go.sum $OUT/go.sum
 cp $V/known_findings.json $OUT/
 VERIF_REPO=$WT python3 $V/harness/overlay/mkoverlay.py "$(go1.26.8 env GOROOT)" $OUT/ov >/dev/null || exit 2
+mkdir -p $OUT/ov/instr
+(cd $V/harness && go1.26.8 run ./cmd/instr $WT $OUT/ov/instr $OUT/ov/overlay.json >/dev/null) || { echo INSTR-FAILED; git -C $WT checkout -q -- .; exit 2; }
 (cd $V/harness && go1.26.8 build -modfile=$OUT/go.mod -overlay $OUT/ov/overlay.json -o $OUT/.build/verifsim ./cmd/verifsim) || { echo BUILD-FAILED; git -C $WT checkout -q -- .; exit 2; }
 for p in "$@"; do
   if [ "$p" = "C40" ]; then
